@@ -361,6 +361,9 @@ def c02(ctx):
 
 def c04(ctx):
     ctx.gotest("cc", "^TestVerifC04", race=True, timeout=3000)
+    if _os.environ.get("VERIF_DEV_SKIP_L2"):  # development aid only: never set by the registered commands
+        ctx.inconclusive.append("level 2 skipped (VERIF_DEV_SKIP_L2)")
+        return
     c04_level2(ctx)
 
 
